@@ -90,10 +90,14 @@ func (t *vTrace) RejectMessage(m *Message, reason string) {
 func (t *vTrace) DuplicateMessage(m *Message) {
 	t.add(vEvt{Kind: "dup", Topic: m.GetTopic(), ID: t.mid(m), From: m.ReceivedFrom})
 }
-func (t *vTrace) ThrottlePeer(p peer.ID)      { t.add(vEvt{Kind: "throttle", Peer: p}) }
-func (t *vTrace) RecvRPC(rpc *RPC)            { t.add(vEvt{Kind: "recv", Peer: rpc.from, RPC: vCloneRPC(rpc)}) }
-func (t *vTrace) SendRPC(rpc *RPC, p peer.ID) { t.add(vEvt{Kind: "send", Peer: p, RPC: vCloneRPC(rpc)}) }
-func (t *vTrace) DropRPC(rpc *RPC, p peer.ID) { t.add(vEvt{Kind: "drop", Peer: p, RPC: vCloneRPC(rpc)}) }
+func (t *vTrace) ThrottlePeer(p peer.ID) { t.add(vEvt{Kind: "throttle", Peer: p}) }
+func (t *vTrace) RecvRPC(rpc *RPC)       { t.add(vEvt{Kind: "recv", Peer: rpc.from, RPC: vCloneRPC(rpc)}) }
+func (t *vTrace) SendRPC(rpc *RPC, p peer.ID) {
+	t.add(vEvt{Kind: "send", Peer: p, RPC: vCloneRPC(rpc)})
+}
+func (t *vTrace) DropRPC(rpc *RPC, p peer.ID) {
+	t.add(vEvt{Kind: "drop", Peer: p, RPC: vCloneRPC(rpc)})
+}
 
 // vCloneRPC deep-copies an RPC at trace time (the library may reuse or edit
 // the control message after the callback returns).
